@@ -12,7 +12,14 @@ fn outcome(name: &str, v: &[u64]) -> Result<bool, String> {
     let vv = v.to_vec();
     match panic::catch_unwind(move || vk::dispatch(&n, &vv)) {
         Ok(b) => Ok(b),
-        Err(e) => Err(e.downcast_ref::<String>().cloned().or_else(|| e.downcast_ref::<&str>().map(|s| s.to_string())).unwrap_or_default()),
+        Err(e) => {
+            let msg = e.downcast_ref::<String>().cloned().or_else(|| e.downcast_ref::<&str>().map(|s| s.to_string())).unwrap_or_default();
+            if !msg.starts_with("VF:") && vk::panic_allowed(name) {
+                // fail-stop behaviour of the code under test, not a verdict
+                return Ok(true);
+            }
+            Err(msg)
+        }
     }
 }
 
